@@ -151,7 +151,8 @@ def run_scenario(scn, want_events=True, twin_fin=None):
         """The code under test raised.  Inputs on which the metric itself is not finite (overflow of a ratio metric in single
         precision, ...) are outside every property's domain: they are skipped, not judged."""
         if scn["mode"] in ("metric", "prefile"):
-            fn_ = model0.distance_fn
+            import opfython.math.distance as _dist
+            fn_ = _dist.DISTANCES[scn.get("metric", "euclidean")]
             allrows = [Xtr[i] for i in range(len(Xtr))] + [Xu[i] for i in range(len(Xu))]
             qrows = [Xq_all[j] for j in range(len(Q))] if Q else []
             try:
@@ -236,7 +237,9 @@ def run_scenario(scn, want_events=True, twin_fin=None):
         D = Dfull[np.ix_(rows, rows)]
         DQ = Dfull[np.ix_(rows, Q)] if Q else np.zeros((n, 0))  # code reads pre[train.idx][query.idx]
     else:
-        fn = orig.distance_fn
+        # the metric NAMED by the scenario, taken from the registry - not whatever function the object ended up holding
+        import opfython.math.distance as _dist
+        fn = _dist.DISTANCES[scn.get("metric", "euclidean")]
         noderow = lambda i: (Xtr[i] if i < nl else Xu[i - nl]).copy()
         D = np.zeros((n, n))
         for i in range(n):
@@ -729,7 +732,8 @@ def learn_traces(rng, count, metrics=("euclidean", "log_squared_euclidean", "man
             continue            # learn's own failure modes are C17's business
         if len(set(L)) < 2:
             continue
-        fn = m.distance_fn
+        import opfython.math.distance as _dist
+        fn = _dist.DISTANCES[met]
         D = np.array([[fn(F[a].copy(), F[b].copy()) if a != b else 0.0 for b in range(n)] for a in range(n)])
         if not np.all(np.isfinite(D)) or not np.array_equal(D, D.T):
             continue
